@@ -533,7 +533,15 @@ func c11RunPath(h *c11SrcHistory, strict bool, root string, report c11SrcReport)
 					report("spin", h.Hist[reading].Kind, h.Hist[reading].Content, "", fmt.Sprintf("load %d (%s %s) published nothing, yet the directory was loaded again after %v (refresh %v)", reading+1, h.Hist[reading].Kind, h.Hist[reading].Content, gap, c11Refresh))
 				}
 			}
-			evals += c11JudgeStep(h, reading, pubs, cfg, strict, report)
+			wasComplete, gateAt := complete, ev.at
+			evals += c11JudgeStep(h, reading, pubs, cfg, strict, func(clause, kind, damage, got, msg string) {
+				ents, _ := os.ReadDir(r.dir)
+				var names []string
+				for _, e := range ents {
+					names = append(names, e.Name())
+				}
+				report(clause, kind, damage, got, fmt.Sprintf("%s [the load read up to its last file: %v; %v between the end of the load and the next one; directory now: %v]", msg, wasComplete, gateAt.Sub(ended), names))
+			})
 			loads++
 			if reading+1 >= n {
 				return loads, evals, nil
